@@ -68,6 +68,13 @@ def race_reports(chk, seed, n):
     for c in big:
         c["id"] = "b" + c["id"]
     cases += big
+    # the performance observer (observers/: registered on the model, its handlers are called by every run) together with a user
+    # constraint that is checked at solution level, so that every handler runs
+    obs = S.make_solve_cases(seed * 31 + 141414, max(4, n // 6), lambda rng, m: dict(settings(rng, m), observer=1, runs=rng.choice([2, 4, 8]), det=0),
+                             feats={"precedence": True, "windows": True})
+    for c in obs:
+        c["id"] = "o" + c["id"]
+    cases += obs
     for fn in os.listdir(C.BUILD):
         if fn.startswith("race_c14"):
             os.remove(os.path.join(C.BUILD, fn))
